@@ -47,7 +47,7 @@ def filter_failures(prop, rep):
     for idx, ce in rep['compile_errors'].items():
         out.append(dict(name=ce['name'], source=ce['source'], config=rep['config'], operation='compile',
                         operands=[], expected=['compiles (the macro accepts the item and the field types support the traits)'],
-                        observed=ce['errors'], spec='accepted'))
+                        observed=ce['errors'], spec='accepted', _item=ce.get('_item'), _harness=ce.get('_harness')))
     return out
 
 
@@ -246,4 +246,4 @@ def search(prop, disagreements, notes):
                        'field/eq/partial_cmp/cmp/hash/clone/fmt (gen/bharness.py: HOSTILE)') if prop == 'C14' else 'plain module',
                 how_to_replay='put the item into a crate depending on /repo with the listed features and run the operation on the operands '
                               '(operand encoding variant:field values; 99 is the NaN-like probe value)',
-                other_failures=len(fails) - 1)
+                other_failures=len(fails) - 1, _item=f.get('_item'), _harness=f.get('_harness'))
